@@ -62,7 +62,13 @@ func classOwner(classes ...string) func(d docgen.Doc, mr model.Result) bool {
 	for _, c := range classes {
 		m[c] = true
 	}
-	return func(d docgen.Doc, mr model.Result) bool { return m[d.Class] }
+	return func(d docgen.Doc, mr model.Result) bool {
+		// documents written out by a stratum (classes the mutator does not produce) always count
+		if !docgen.AllClasses[d.Class] && d.Class != "valid" && d.Class != "default" {
+			return true
+		}
+		return m[d.Class]
+	}
 }
 
 func runSem(ctx *Ctx, sp *semSpec) (*Outcome, error) {
@@ -194,7 +200,13 @@ func init() {
 		}
 		return nil
 	}
-	regSem(&semSpec{id: "C03", extra: twin,
+	regSem(&semSpec{id: "C03",
+		extra: func(ctx *Ctx, i int, r *sg.Rng) *sem.Case {
+			if i < 16 {
+				return fractionalMultipleCase(i)
+			}
+			return twin(ctx, i-16, r)
+		},
 		opts:    sg.Opts{MaxDepth: 3, PNullable: 0.3, PAddProps: 0.35, NullType: true, RootKinds: true, AddPropsTrue: true, W: map[string]float64{"map": 2.5}},
 		classes: docgen.Classes{"type": true, "nullok": true, "nullreq": true, "addkey": true},
 		own:     classOwner("type", "nullok", "addkey"),
@@ -295,6 +307,8 @@ func init() {
 					c := internalNameCase(k, r)
 					c.Args = append(c.Args, "--extra-imports")
 					return c
+				} else if k -= ctx.N(32, 160); k < 12 {
+					return dashNameCase(k)
 				}
 				return nil
 			}
@@ -984,5 +998,74 @@ func identifierCollisionCase(i int) *sem.Case {
 	for _, kv := range full {
 		c.Docs = append(c.Docs, docgen.Doc{V: jsonx.Obj{{K: "rec", V: jsonx.Obj{kv}}}, Class: "collision", Label: "only-" + kv.K}, docgen.Doc{V: jsonx.Obj{{K: "rec", V: full.Del(kv.K)}}, Class: "collision", Label: "without-" + kv.K})
 	}
+	return c
+}
+
+// fractionalMultipleCase: integer positions whose multipleOf is not a whole number (1.5, 2.5): whatever the generator
+// makes of the factor, the position stays an integer position - a non-integral number is a type fault.
+func fractionalMultipleCase(i int) *sem.Case {
+	f := []float64{2.5, 1.5, 7.5, 10.5}[i%4]
+	root := &sg.Schema{Types: []string{"object"}, Props: []sg.Prop{
+		{Name: "plain", S: &sg.Schema{Types: []string{"integer"}}},
+		{Name: "step", S: &sg.Schema{Types: []string{"integer"}, MultipleOf: sg.Fp(f)}},
+		{Name: "maybe", S: &sg.Schema{Types: []string{"integer", "null"}, MultipleOf: sg.Fp(f)}},
+		{Name: "nullfirst", S: &sg.Schema{Types: []string{"null", "integer"}, MultipleOf: sg.Fp(f), Min: sg.Fp(0)}},
+		{Name: "steps", S: &sg.Schema{Types: []string{"array"}, Items: &sg.Schema{Types: []string{"integer"}, MultipleOf: sg.Fp(f)}}},
+		{Name: "bounded", S: &sg.Schema{Types: []string{"integer"}, MultipleOf: sg.Fp(f), Min: sg.Fp(0), Max: sg.Fp(1000)}},
+	}}
+	if (i/4)%2 == 1 {
+		root.Required = []string{"step", "bounded"}
+	}
+	c := &sem.Case{Root: root, Sig: fmt.Sprintf("fractional-multiple/%v", f), NoAuto: true}
+	if (i/8)%2 == 1 {
+		c.Args = []string{"--min-sized-ints"}
+	}
+	base := jsonx.Obj{}
+	if len(root.Required) > 0 {
+		// a value that is a multiple of the factor and of its truncation: accepted whichever the generated check uses
+		ok := jsonx.N(int64(f * 2 * float64(int64(f))))
+		base = jsonx.Obj{{K: "step", V: ok}, {K: "bounded", V: ok}}
+	}
+	for _, key := range []string{"plain", "step", "maybe", "nullfirst", "bounded"} {
+		for _, w := range []any{jsonx.Num(fmt.Sprintf("%v", f)), jsonx.Num(fmt.Sprintf("%v", f*3)), jsonx.Num("0.5"), "10", true, []any{}, jsonx.Obj{}} {
+			c.Docs = append(c.Docs, docgen.Doc{V: base.Set(key, w), Class: "typefault", Label: key})
+		}
+	}
+	for _, w := range []any{jsonx.Num(fmt.Sprintf("%v", f)), "10", jsonx.Num("0.5")} {
+		c.Docs = append(c.Docs, docgen.Doc{V: base.Set("steps", []any{w}), Class: "typefault", Label: "steps"})
+	}
+	c.Docs = append(c.Docs, docgen.Doc{V: base.Set("maybe", nil), Class: "typefault", Label: "maybe-null"}, docgen.Doc{V: base.Set("nullfirst", nil), Class: "typefault", Label: "nullfirst-null"},
+		docgen.Doc{V: base, Class: "typefault", Label: "base"})
+	return c
+}
+
+// dashNameCase: a property named "-" (which struct tags read as "skip this field" - recorded finding
+// name-breaks-tag, so the verdict against the model is that finding); JSON and YAML must still treat it alike.
+func dashNameCase(i int) *sem.Case {
+	obj := &sg.Schema{Types: []string{"object"}, Props: []sg.Prop{
+		{Name: "file", S: &sg.Schema{Types: []string{"string"}, MinLen: 1}},
+		{Name: "+", S: &sg.Schema{Types: []string{"integer"}, Min: sg.Fp(0)}},
+		{Name: "-", S: &sg.Schema{Types: []string{"integer"}, Min: sg.Fp(0)}},
+	}, Required: []string{"file"}}
+	switch i % 3 {
+	case 0:
+		obj.Required = []string{"file", "+", "-"}
+	case 1:
+		obj.Required = []string{"file", "-"}
+	}
+	root := obj
+	if (i/3)%2 == 1 {
+		root = &sg.Schema{Types: []string{"object"}, Props: []sg.Prop{{Name: "stat", S: obj}}}
+	}
+	wrap := func(o jsonx.Obj) any {
+		if root != obj {
+			return jsonx.Obj{{K: "stat", V: o}}
+		}
+		return o
+	}
+	c := &sem.Case{Root: root, Sig: fmt.Sprintf("dash-name/%d", i%6), NoAuto: true, Witness: "name-breaks-tag", Args: []string{"--extra-imports"}}
+	full := jsonx.Obj{{K: "file", V: "a.go"}, {K: "+", V: jsonx.N(3)}, {K: "-", V: jsonx.N(1)}}
+	c.Docs = append(c.Docs, docgen.Doc{V: wrap(full), Class: "pinned", Label: "valid"}, docgen.Doc{V: wrap(full.Set("-", jsonx.N(-5))), Class: "pinned", Label: "minimum-on-dash"},
+		docgen.Doc{V: wrap(full.Del("-")), Class: "pinned", Label: "dash-missing"}, docgen.Doc{V: wrap(full.Del("+")), Class: "pinned", Label: "plus-missing"}, docgen.Doc{V: wrap(full.Set("-", "x")), Class: "pinned", Label: "dash-wrong-type"})
 	return c
 }
